@@ -30,6 +30,10 @@ func q(name string, qtype uint16, id uint16) control.C09Query {
 	return control.C09Query{Name: name, Qtype: qtype, ID: id}
 }
 
+func qg(name string, qtype uint16, id uint16, gap time.Duration) control.C09Query {
+	return control.C09Query{Name: name, Qtype: qtype, ID: id, Gap: gap}
+}
+
 func cl(qs ...control.C09Query) control.C09Client { return control.C09Client{Queries: qs} }
 
 type B = vsched.Bound
@@ -39,7 +43,7 @@ func main() {
 		fmt.Fprintln(os.Stderr, "C09: prepare:", err)
 		os.Exit(2)
 	}
-	// Whole scenarios are distributed over the worker processes (13 quick / 16 thorough scenarios on 16 workers:
+	// Whole scenarios are distributed over the worker processes (20 quick / 23 thorough scenarios on 16 workers, the 7 small sequential ones first:
 	// one start-up per worker, no redundant shallow executions — the machine is shared). Every scenario deepens
 	// its bounds cheapest first until its list is done or the common deadline is reached (exhaustive:false).
 	thorough, worker := false, false
@@ -69,6 +73,23 @@ func main() {
 		per[p.Name] = map[string][]B{"quick": quick, "thorough": deep}
 	}
 	C := func(cs ...control.C09Client) []control.C09Client { return cs }
+
+	// ---- small sequential histories first (with more scenarios than workers, worker i also gets scenario i+16) ----
+	// a truncated (TC=1) UDP reply precedes a retirement of the forwarder, by each retirement route: retire-all
+	// (every scenario ends with it), error retirement by a later failed exchange, idle eviction; plain udp
+	// (scripted forwarder handing back ErrDNSTruncated like DoUDP) and tcp+udp (real DoUDP, fallback to TCP)
+	one := []B{{0, 0}, {1, 0}, {0, 1}}
+	deep1 := []B{{0, 0}, {1, 0}, {0, 1}, {2, 0}, {1, 1}, {0, 2}}
+	add(&control.C09Params{Name: "L1/tc-then-reset", Layer: 1, Script: []string{"truncated"}, Clients: C(cl(q(a, tA, 0x7a01), q(b, tA, 0x7a02)))}, one, deep1)
+	add(&control.C09Params{Name: "L1/tc-then-error", Layer: 1, Script: []string{"truncated", "error"}, Clients: C(cl(q(a, tA, 0x7a01), q(b, tA, 0x7a02)))}, one, deep1)
+	add(&control.C09Params{Name: "L1/tc-then-evict", Layer: 1, Script: []string{"truncated"}, After: "evict", Clients: C(cl(q(a, tA, 0x7a01), q(b, tA, 0x7a02)))}, one, deep1)
+	add(&control.C09Params{Name: "L2/tc-then-reset", Layer: 2, Script: []string{"truncated"}, Clients: C(cl(q(a, tA, 0x7b01), q(b, tA, 0x7b02)))}, one, deep1)
+	add(&control.C09Params{Name: "L2/tc-then-error", Layer: 2, Script: []string{"truncated", "sockerr"}, Clients: C(cl(q(a, tA, 0x7b01), q(b, tA, 0x7b02)))}, one, deep1)
+	add(&control.C09Params{Name: "L2/tc-then-evict", Layer: 2, Script: []string{"truncated"}, After: "evict", Clients: C(cl(q(a, tA, 0x7b01), q(b, tA, 0x7b02)))}, one, deep1)
+	// chain-form answers (Answer[0] owned by the CNAME target) and an entry that ages past the re-pack threshold
+	// (15s) while fresh: miss at 0s, hit at 20s (re-pack, other spelling of the name), hit at 21s (re-packed bytes)
+	add(&control.C09Params{Name: "L1/chain-aging", Layer: 1, Chain: true, Behaviours: []string{"ok", "error"},
+		Clients: C(cl(q(a, tA, 0x7c01)), cl(qg("A.C9.Test.", tA, 0x7c02, 20*time.Second)), cl(qg(a, tA, 0x7c03, 21*time.Second)))}, one, deep1)
 
 	// ---- layer 1: scripted forwarder behind the real controller --------------------------------------------
 	// identical question (0x20 mixed case on one side), different transaction IDs: coalescing, per-waiter ID
@@ -142,7 +163,8 @@ func main() {
 			r.Assume("dnsPipelineMaxIDs lowered from 4096 to 8 by an overlay constant (pipelinedConn.closeWithErr walks the whole pending table; at most 3 requests are in flight here)")
 			r.Assume("clients enter through DnsController.HandleWithResponseWriter_ with a capturing ResponseWriter (the path of the DNS listener and DNS-over-TCP); the packet path (sendRuntimeTrackedPkt, needs real sockets) is not executed. A handler error is what the listeners turn into SERVFAIL built from the request")
 			r.Assume("an upstream reply whose question section is the client's question but whose records are garbage cannot be told from an answer by a forwarder and is not in the behaviour alphabet; foreign answers are whole messages generated for another question (other name or other type) under the request's ID")
-			r.Assume("the pre-packed cache fast path is dead code in this tree (DnsCache.deadlineNano is never set by the production insert path, see C08), so cache hits are served through fillIntoWithTTLInPlace on the client's own message")
+			r.Assume("cache hits are served from the pre-packed bytes (live since 822787e); the re-pack slow path (entry older than 15s, still fresh) is reached in L1/chain-aging only; optimistic (stale) serving is off")
+			r.Assume("every scenario ends with retire-all (ResetDnsForwarders) + quiescence before the controller is closed: from then on every forwarder ever created must have seen Close exactly once")
 			r.Assume("layers 2/3: simulated sockets (simnet), direct dialer profile (no proxy): DoH/DoQ/DoTLS transports are not executed")
 		},
 	}
